@@ -1720,6 +1720,10 @@ pub fn from_reader_with_options<'a, R: std::io::Read + 'a, T: DeserializeOwned>(
         }
         match shared_ring.get_recent() {
             Ok(snapshot) => {
+                if snapshot.utf16 {
+                    // The window holds the raw UTF-16 bytes, not the decoded text.
+                    return e;
+                }
                 let mut bytes = &snapshot.bytes[..];
                 let mut start_line = snapshot.start_line;
                 if !snapshot.starts_at_line_start {
